@@ -1,11 +1,12 @@
 import FrappyDrive.Util
 import FrappyModel.Spec.C05
 import FrappyModel.Node.UpdateSys
+import FrappyModel.Node.Transport
 import FrappyModel.Generated.C05
 /- line-protocol glue for C05.  Values and errors are numbers chosen by the harness (one number per distinct
 exported form / per distinct `SECoPError.__eq__` class); the oracle tables say what Python computed on them. -/
 namespace Frappy.Drive.C05
-open Lean Frappy.Drive Frappy.Update Frappy.UpdateSys Frappy.Spec.C05
+open Lean Frappy.Drive Frappy.Update Frappy.UpdateSys Frappy.Spec.C05 Frappy.Transport
 
 abbrev S := VE Nat Nat
 
@@ -292,9 +293,78 @@ def drain (c : Cfg Nat Nat) : Nat → Sys Nat Nat → List Tid → Sys Nat Nat
       | none => s) s
     if ts.all (fun t => finished s' t) then s' else drain c fuel s' ts
 
+/-! ### the transport: every connection of a sequential history is a TCP handler over a scripted socket -/
+
+/-- connection state + how many `sendall` calls for event messages / for replies it has made so far -/
+structure TcpSt where
+  c : Conn Json
+  ev : Nat
+  rep : Nat
+
+/-- `faults`: (connection, is a reply?, number of the call among those of its kind, bytes written before it raised) -/
+def faultOf (faults : List (Nat × Bool × Nat × Nat)) (cid : Nat) (isRep : Bool) (n : Nat) : SendRes :=
+  match faults.find? (fun f => f.1 == cid && f.2.1 == isRep && f.2.2.1 == n) with
+  | some f => .fails f.2.2.2
+  | none => .ok
+
+/-- a frame is the JSON of an event message; `null` stands for the reply to a request -/
+def tcpSend (faults : List (Nat × Bool × Nat × Nat)) (cid : Nat) (st : TcpSt) (frame : Json) : TcpSt :=
+  if st.c.running then
+    let isRep := frame.isNull
+    let c' := sendReply st.c frame (faultOf faults cid isRep (if isRep then st.rep else st.ev))
+    if isRep then ⟨c', st.ev, st.rep + 1⟩ else ⟨c', st.ev + 1, st.rep⟩
+  else st
+
+/-- one observation point: the events of the point, then the reply (if the connection sent the request), then one
+round of the handler loop -/
+def tcpPoint (faults : List (Nat × Bool × Nat × Nat)) (replyTo : Option Nat) : List (Nat × TcpSt × List Json) → List (TcpSt × Json)
+  | [] => []
+  | (cid, st, frames) :: rest =>
+    let before := (received st.c).length
+    let st1 := frames.foldl (tcpSend faults cid) st
+    let st2 := if replyTo = some cid then tcpSend faults cid st1 Json.null else st1
+    let st3 : TcpSt := { st2 with c := loopRound st2.c }
+    let new := ((received st3.c).drop before).filter (fun f => !f.isNull)
+    (st3, Json.mkObj [("recv", jarr new), ("garbled", jnat (garbled st3.c)), ("open", Json.bool (!st3.c.closed)),
+                      ("listed", Json.bool st3.c.listed)]) :: tcpPoint faults replyTo rest
+
+def tcpRun (faults : List (Nat × Bool × Nat × Nat)) (cids : List Nat) : List TcpSt → List (Json × Option Nat) → R (List Json)
+  | _, [] => pure []
+  | sts, (out, rt) :: rest => do
+    let recv ← (← fldArr out "recv").mapM arr
+    let r := tcpPoint faults rt (cids.zip (sts.zip recv))
+    let tail ← tcpRun faults cids (r.map (·.1)) rest
+    return out.setObjVal! "tcp" (jarr (r.map (·.2))) :: tail
+
+def parseFault (j : Json) : R (Nat × Bool × Nat × Nat) := do
+  match (← arr j) with
+  | [c, .str kind, n, w] => return (← c.getNat?, kind == "rep", ← n.getNat?, ← w.getNat?)
+  | _ => throw s!"bad fault {j.compress}"
+
+def parseTObs (j : Json) : R (TObs S) := do
+  return ⟨← parseObs j, ← fldNat j "garbled", ← fldBool j "open", ← fldBool j "listed"⟩
+
 def handle (j : Json) : R Json := do
   let k ← fldStr j "k"
   match k with
+  | "tcp" =>
+    let o ← parseOracle j
+    let e ← parseEntry (← fld j "entry")
+    let ops ← (← fldArr j "ops").mapM (fun x => do
+      let op ← parseSeqOp o (← fld x "op")
+      return ((← fldInt x "now"), op))
+    let cids ← cidsOf j
+    let outs := seqRunA o cids (← parseAct0 j) e ops
+    let replies ← (← fldArr j "replies").mapM optNat
+    if replies.length ≠ outs.length then throw s!"tcp: {replies.length} replies for {outs.length} observation points"
+    let faults ← (← fldArr j "faults").mapM parseFault
+    let outs' ← tcpRun faults cids (cids.map (fun _ => ⟨Conn.fresh, 0, 0⟩)) (outs.zip replies)
+    return Json.mkObj [("window", jint e.window), ("init", veJson e.ve), ("outs", jarr outs')]
+  | "judge_tcp" =>
+    let tr ← (← fldArr j "trace").mapM parseTObs
+    match judgeT isErr (← parseVe (← fld j "prev")) tr with
+    | none => return Json.mkObj [("bad", Json.null)]
+    | some (i, cl) => return Json.mkObj [("bad", jarr [jnat i, Json.str cl])]
   | "seq" =>
     let o ← parseOracle j
     let e ← parseEntry (← fld j "entry")
